@@ -4,7 +4,7 @@
    declared, leaked; C07_Main: base_of = ordinal of the first allocation of test i, leaks_of = L_i = blocks allocated by the
    executed statements of test i and not released later in test i); `run` is the mirror of the plugin and the detector's table. *)
 From Coq Require Import NArith List Bool Permutation.
-From CppUVerif Require Import gen.Gen_Common C04_Model C04_Table C07_Model C07_Proofs C07_Tests C07_Main C07_Carry.
+From CppUVerif Require Import gen.Gen_Common C04_Model C04_Table C07_Model C07_Proofs C07_Tests C07_Main C07_Carry C07_Exact.
 Import ListNotations.
 Local Open Scope N_scope.
 
@@ -87,6 +87,24 @@ Theorem C07_run_body_is_executed : forall w t,
   fold_left step (t_ipost t) (run_body (fold_left step (t_ipre t) w) t) = fold_left step (executed t) w.
 Proof. exact control_flow. Qed.
 Print Assumptions C07_run_body_is_executed.
+
+(* refinement to the text: before every preTestAction the hash table (invariants of C04 intact) holds exactly one record per block
+   the executed text has obtained and not released -- `enabled` for those obtained since the plugin exists (ordinals from
+   1 + |pre| on, in text order), `disabled` for the older ones -- and the allocation counter is 1 + the number of allocations *)
+Theorem C07_table_is_text : forall s k, valid s = true ->
+  let d := w_det (world_before_pre s k) in
+  Inv (d_tbl d) /\ Permutation (flat (d_tbl d)) (pure_recs (s_pre s) (text_before s k)) /\
+  d_seq d = 1 + allocs (s_pre s) + allocs (text_before s k).
+Proof. exact table_is_text. Qed.
+Print Assumptions C07_table_is_text.
+
+(* the oracle is exactly the property: an observation whose reports were not cut short by the 4096-byte buffer is accepted iff
+   every test's failures, verdict and report and the final report are what the program text demands (no validity needed) *)
+Theorem C07_spec_exact : forall s o, Forall (fun i => ti_many i = false) (o_tests o) -> o_many o = false ->
+  (spec s o = true <->
+   o_err o = false /\ o_stray o = 0 /\ items_good (1 + allocs (s_pre s)) (s_tests s) (o_tests o) /\ final_good s o).
+Proof. exact spec_exact. Qed.
+Print Assumptions C07_spec_exact.
 
 (* the executable oracle used on the implementation's observations accepts every model observation *)
 Theorem C07_run_meets_spec : forall s, valid s = true -> spec s (run s) = true.
